@@ -1,27 +1,30 @@
 /-
   kbmodel — line-protocol driver for the Lean model (same protocol as /verif/harness kbharness).
-  Core-only imports so that it links as a `lean_exe`.
+  Core-only imports so that it links as a `lean_exe`. One `(init, step)` pair per suite.
 -/
 import KB.Backend
 import KB.Driver.Util
 import KB.Driver.Suites
 open KB KB.Driver
 
-partial def loop (h : IO.FS.Stream) (suiteName : String) (st : SuiteState) : IO Unit := do
+partial def loop {σ : Type} (h : IO.FS.Stream) (step : σ → List String → σ × String) (st : σ) : IO Unit := do
   let line ← h.getLine
   if line.isEmpty then return ()
   let line := line.trimAscii.toString
-  if line.isEmpty || line.startsWith "#" then loop h suiteName st
+  if line.isEmpty || line.startsWith "#" then loop h step st
   else
     let toks := (line.splitOn " ").filter (· ≠ "")
-    let (st', out) := stepSuite suiteName st toks
+    let (st', out) := step st toks
     IO.println out
     (← IO.getStdout).flush
-    loop h suiteName st'
+    loop h step st'
 
 def main (args : List String) : IO Unit := do
   let suiteName := match args with
     | ["-suite", s] => s
     | [s] => s
     | _ => "backend"
-  loop (← IO.getStdin) suiteName (initSuite suiteName [])
+  let stdin ← IO.getStdin
+  match suiteName with
+  -- one line per suite: `| "name" => loop stdin Name.step Name.init`
+  | _ => loop stdin (stepSuite suiteName) (initSuite suiteName [])
